@@ -66,6 +66,9 @@ func rtGen(r *rand.Rand, n int, tier string, emit func(Case)) {
 		var sz int
 		if i%8 == 7 && tier == "thorough" {
 			sz = big[r.Intn(len(big))]
+		} else if i%50 == 49 {
+			// a few large trees in every tier: several internal levels, a search front of hundreds of entries
+			sz = []int{600, 1000, 1500, 2000, 3000}[(i/50)%5]
 		} else if i%16 == 15 {
 			sz = big[r.Intn(6)]
 		} else {
